@@ -125,9 +125,13 @@ VH_DRIVER(algebra){
   if(mode=="addbase"){
     size_t total=refs.size()*bases.size()*2; double keep= total>(size_t)want? (double)want/total : 1.0; long k=0;
     for(auto&r:refs) for(auto&b:bases) for(int opt=0;opt<2;++opt){ ++k; if(keep<1.0 && (R.next()%1000000)>=keep*1000000) continue;
-      AW(true,k%2,[&]{ addbase_event<ApiA>(r,b,opt,(int)(k%3)); },[&]{ addbase_event<ApiW>(r,b,opt,(int)(k%3)); });
+      AW(true,(k>>1)%2,[&]{ addbase_event<ApiA>(r,b,opt,(int)(k%3)); },[&]{ addbase_event<ApiW>(r,b,opt,(int)(k%3)); });
       if(k%5003==0) g.sample(J().str("ref",show(r)).str("base",show(b)).num("opt",opt).done()); }
-    { long q=0; for(auto&r:ambiguity_family()) for(const char*b:{"s:/x/y","s:x/y","s://g/x/y","s:","s://g","t:a"}) for(int opt=0;opt<2;++opt){ ++q; AW(true,q%2,[&]{ addbase_event<ApiA>(r,T(b),opt,(int)(q%3)); },[&]{ addbase_event<ApiW>(r,T(b),opt,(int)(q%3)); }); } }
+    { long q=0; for(auto&r:ambiguity_family()) for(const char*b:{"s:/x/y","s:x/y","s://g/x/y","s:","s://g","t:a"}) for(int opt=0;opt<2;++opt){ ++q; AW(true,(q>>1)%2,[&]{ addbase_event<ApiA>(r,T(b),opt,(int)(q%3)); },[&]{ addbase_event<ApiW>(r,T(b),opt,(int)(q%3)); }); } }
+    // identical-scheme compatibility mode: the two schemes compared in full (equal length and a common prefix, case variants, one a prefix of the other)
+    { long q=0; const char* scs[]={"ab","ac","aB","AB","abc","abd","ab+","http","h323","https","httq","a1","a2","a","b","abcdefgh","abcdefgx","abcdxfgh"};
+      for(auto sa:scs) for(auto sb:scs) for(const char*rr:{":g",":/g/h","://h/p",":",":?y",":../g#f"}) for(const char*bb:{"://a/b/c/d;p?q",":x/y"}) for(int opt=0;opt<2;++opt){ ++q; Text r=T(sa)+T(rr), b=T(sb)+T(bb);
+        for(int pa=0;pa<(g.pair?1:2);++pa) AW(true,pa,[&]{ addbase_event<ApiA>(r,b,opt,(int)(q%3)); },[&]{ addbase_event<ApiW>(r,b,opt,(int)(q%3)); }); } }
     // longer random paths
     const char* segs[]={"",".","..","a","b","b:c","%2e","1:2"}; long extra= g.thorough? 200000: 4000;
     for(long i=0;i<extra;++i){ Text r; if(R.below(6)==0) r=T("s:"); if(R.below(5)==0) r.push_back('/'); int n=1+R.below(10); for(int j=0;j<n;++j){ if(j) r.push_back('/'); r=r+T(segs[R.below(8)]); } if(R.below(4)==0) r=r+T("?q"); if(R.below(4)==0) r=r+T("#f");
